@@ -257,7 +257,10 @@ pub(crate) fn add_int_digits<W, R, T>(
             let mut digits = Vec::new();
             let mut total_bits = 0;
             let mut n = n.clone();
+            let mut search = rt.limits.search_iter();
             while !n.is_zero() {
+                // one long division per digit
+                search.next().unwrap()?;
                 let next_digit = &n % b.as_ref();
                 total_bits += next_digit.bits();
                 rt.can_allocate_by(|| (total_bits / 8).to_usize())?;
